@@ -151,10 +151,10 @@ type GuardPat struct {
 	PassWhen bool
 }
 
-func EqPass(x, y string) GuardPat   { return GuardPat{Kind: "eq", X: x, Y: y, PassWhen: true} }
-func NePass(x, y string) GuardPat   { return GuardPat{Kind: "eq", X: x, Y: y, PassWhen: false} }
-func TruePass(x string) GuardPat    { return GuardPat{Kind: "bool", X: x, PassWhen: true} }
-func FalsePass(x string) GuardPat   { return GuardPat{Kind: "bool", X: x, PassWhen: false} }
+func EqPass(x, y string) GuardPat     { return GuardPat{Kind: "eq", X: x, Y: y, PassWhen: true} }
+func NePass(x, y string) GuardPat     { return GuardPat{Kind: "eq", X: x, Y: y, PassWhen: false} }
+func TruePass(x string) GuardPat      { return GuardPat{Kind: "bool", X: x, PassWhen: true} }
+func FalsePass(x string) GuardPat     { return GuardPat{Kind: "bool", X: x, PassWhen: false} }
 func NotExceeds(x, y string) GuardPat { return GuardPat{Kind: "gt", X: x, Y: y} }
 
 var reCache = map[string]*regexp.Regexp{}
@@ -697,3 +697,6 @@ func (fa *FuncAn) exitLabel(x Exit) string {
 	}
 	return "!(" + trunc(f.c.String(), 100) + ")"
 }
+
+// M matches s against a pattern after parameter substitution/translation.
+func (fa *FuncAn) M(pat, s string) bool { return fullMatch(substParams(fa.Fn, pat), s) }
